@@ -13,21 +13,23 @@
 (*             infer_constraints_by_class (stacking)        -> action ClassStack                         *)
 (*                                                                                                       *)
 (* The pinned code deviates from the property in three named ways; each is a constant switch so that     *)
-(* both the design AS IT IS and the design AS REPAIRED (notes/fixes/C15-*.patch) are model-checked:      *)
+(* both the design AS IT IS and the design AS REPAIRED (notes/fixes/C15-foreign-guard.patch, C02-len-constraint-errors.patch) are model-checked:      *)
 (*   ForeignGuardMisread  a guard naming another property is dropped (the consequent is read as an       *)
 (*                        unconditional constraint)                                                      *)
 (*   StrictPositiveMin    LenConstraint requires 0 < min when both bounds are present                    *)
 (*   RaiseOnConflict      a contradiction that only shows when merging levels violates the precondition  *)
 (*                        of LenConstraint (an exception) instead of being reported as an error          *)
-EXTENDS Constraints, TLC, SequencesExt
+(* and the repair adds one behaviour:                                                                    *)
+(*   NegativeMaxIsError   an upper bound below 0 (len(x) < 0) is reported as an error by the reduction   *)
+EXTENDS Constraints, TLC
 
 CONSTANTS Scenarios,            \* the set of scenarios explored (defined in MC_ConstraintsAlgo.tla)
           MaxLen,
-          ForeignGuardMisread, StrictPositiveMin, RaiseOnConflict
+          ForeignGuardMisread, StrictPositiveMin, RaiseOnConflict, NegativeMaxIsError
 
 None == -99                     \* "no bound" (Python None); bounds range over -1..MaxLen
 
-VARIABLES sid,        \* the scenario being processed (index into ScnSeq)
+VARIABLES scn,        \* the scenario being processed
           pc,         \* "match" | "primstack" | "inline" | "classstack" | "done"
           unit,       \* index of the unit (P1..Pj then C1..Ck) whose invariants are being matched
           ai,         \* index of the next atom of that unit
@@ -38,10 +40,7 @@ VARIABLES sid,        \* the scenario being processed (index into ScnSeq)
           sk,         \* class being stacked onto its parent
           errs,       \* errors were collected in the current phase (reported at the end of the phase)
           outcome     \* "running" | "ok" | "error" | "raise"
-vars == <<sid, pc, unit, ai, loose, own, prim, byval, sk, errs, outcome>>
-
-ScnSeq == SetToSeq(Scenarios)
-scn == ScnSeq[sid]
+vars == <<scn, pc, unit, ai, loose, own, prim, byval, sk, errs, outcome>>
 
 NoRes == [has |-> FALSE, mn |-> None, mx |-> None]
 NP == Len(scn.prim)
@@ -101,6 +100,7 @@ Reduce(ls) ==
                \/ f.ex # None /\ f.mn # None /\ f.mn > f.ex
                \/ f.ex # None /\ f.mx # None /\ f.ex > f.mx
                \/ f.mn # None /\ f.mx # None /\ f.mn > f.mx
+               \/ NegativeMaxIsError /\ f.mx # None /\ f.mx < 0
         mn == IF f.ex # None THEN f.ex ELSE f.mn
         mx == IF f.ex # None THEN f.ex ELSE f.mx
     IN  IF err THEN <<"error">>
@@ -126,12 +126,12 @@ Merge(a, b) ==
 (* An error is only *collected* (the loop goes on, a later step may still raise); an exception ends the    *)
 (* run at once.                                                                                           *)
 Init ==
-    /\ sid \in 1..Len(ScnSeq)
+    /\ scn \in Scenarios
     /\ pc = "match" /\ unit = 1 /\ ai = 1 /\ loose = <<>>
     /\ own = <<>> /\ prim = <<>> /\ byval = <<>> /\ sk = 2 /\ errs = FALSE
     /\ outcome = "running"
 
-Fail(o) == outcome' = o /\ pc' = "done" /\ UNCHANGED <<sid, unit, ai, loose, own, prim, byval, sk, errs>>
+Fail(o) == outcome' = o /\ pc' = "done" /\ UNCHANGED <<scn, unit, ai, loose, own, prim, byval, sk, errs>>
 Placeholder == [v |-> NoRes, i |-> NoRes]
 \* where to go after class unit u is finished
 AfterClass(u) == /\ unit' = u + 1 /\ ai' = 1 /\ loose' = <<>>
@@ -144,7 +144,7 @@ MatchStep ==
            m == Match(a)
        IN  loose' = IF Sees(a, unit <= NP) /\ m[1] # "none" THEN Append(loose, m) ELSE loose
     /\ ai' = ai + 1
-    /\ UNCHANGED <<sid, pc, unit, own, prim, byval, sk, errs, outcome>>
+    /\ UNCHANGED <<scn, pc, unit, own, prim, byval, sk, errs, outcome>>
 
 \* all invariants of the unit matched: reduce them
 ReduceStep ==
@@ -160,18 +160,18 @@ ReduceStep ==
                ELSE IF r[1] = "error"
                     THEN byval' = Append(byval, Placeholder) /\ AfterClass(unit)     \* no in-lining after an error
                     ELSE pc' = "inline" /\ UNCHANGED <<unit, ai, loose, byval>>
-            /\ UNCHANGED <<sid, prim, sk, outcome>>
+            /\ UNCHANGED <<scn, prim, sk, outcome>>
 
 \* B: constrained primitives inherit from their parent (topological order)
 PrimStack ==
     /\ pc = "primstack"
     /\ IF errs THEN Fail("error")
        ELSE IF Len(prim) = NP
-       THEN pc' = "match" /\ UNCHANGED <<sid, unit, ai, loose, own, prim, byval, sk, errs, outcome>>
+       THEN pc' = "match" /\ UNCHANGED <<scn, unit, ai, loose, own, prim, byval, sk, errs, outcome>>
        ELSE LET j == Len(prim) + 1
                 m == IF j = 1 THEN <<"ok", own[1]>> ELSE Merge(prim[j - 1], own[j])
             IN  IF m[1] = "ok"
-                THEN prim' = Append(prim, m[2]) /\ UNCHANGED <<sid, pc, unit, ai, loose, own, byval, sk, errs, outcome>>
+                THEN prim' = Append(prim, m[2]) /\ UNCHANGED <<scn, pc, unit, ai, loose, own, byval, sk, errs, outcome>>
                 ELSE Fail(m[1])
 
 \* C (second half): the constrained primitive is in-lined into the property-level result of class `unit`
@@ -185,21 +185,21 @@ Inline ==
            ELSE /\ byval' = Append(byval, IF v[1] = "ok" THEN [v |-> v[2], i |-> it] ELSE Placeholder)
                 /\ errs' = (errs \/ v[1] = "error")
                 /\ AfterClass(unit)
-                /\ UNCHANGED <<sid, own, prim, sk, outcome>>
+                /\ UNCHANGED <<scn, own, prim, sk, outcome>>
 
 \* D: classes inherit from their parent (topological order)
 ClassStack ==
     /\ pc = "classstack"
     /\ IF errs THEN Fail("error")
        ELSE IF sk > NC
-       THEN outcome' = "ok" /\ pc' = "done" /\ UNCHANGED <<sid, unit, ai, loose, own, prim, byval, sk, errs>>
+       THEN outcome' = "ok" /\ pc' = "done" /\ UNCHANGED <<scn, unit, ai, loose, own, prim, byval, sk, errs>>
        ELSE LET mv == Merge(byval[sk - 1].v, byval[sk].v)
                 mi == Merge(byval[sk - 1].i, byval[sk].i)
             IN  IF mv[1] # "ok" THEN Fail(mv[1])
                 ELSE IF mi[1] # "ok" THEN Fail(mi[1])
                 ELSE /\ byval' = [byval EXCEPT ![sk] = [v |-> mv[2], i |-> mi[2]]]
                      /\ sk' = sk + 1
-                     /\ UNCHANGED <<sid, pc, unit, ai, loose, own, prim, errs, outcome>>
+                     /\ UNCHANGED <<scn, pc, unit, ai, loose, own, prim, errs, outcome>>
 
 Next == MatchStep \/ ReduceStep \/ PrimStack \/ Inline \/ ClassStack
 Spec == Init /\ [][Next]_vars /\ WF_vars(Next)
